@@ -172,11 +172,36 @@ fn observe(rng: &mut Rng, size: i64) -> Step {
 }
 
 pub fn generate(rng: &mut Rng, _tier: &str) -> Scenario {
-    match rng.below(100) {
+    let mut sc = match rng.below(100) {
         0..=79 => gen_jump_run(rng),
         80..=87 => gen_quiet_run(rng),
         88..=93 => gen_fixed_run(rng),
         _ => gen_bound_run(rng),
+    };
+    decorate(rng, &mut sc);
+    sc
+}
+
+/// swarm: coordinates on the context (for expressions without sun events they must not matter), an interval
+/// bound on both contexts, arbitrary sub-second parts, and now and then a long stream
+pub fn decorate(rng: &mut Rng, sc: &mut Scenario) {
+    let has_event = ["sunrise", "sunset", "dawn", "dusk"].iter().any(|k| sc.expr.contains(k));
+    if !has_event && rng.chance(1, 10) {
+        sc.coords = Some(*rng.pick(&[(488535, 23484), (-338688, 1512093), (641466, -219426), (0, 0), (-900000, 0), (18720, -1574270)]));
+    }
+    if rng.chance(1, 12) {
+        sc.bound_days = Some(*rng.pick(&[1, 2, 7, 30, 366]));
+    }
+    for st in sc.steps.iter_mut() {
+        match st {
+            Step::Goto { nanos, .. } if *nanos != 0 && rng.chance(1, 2) => *nanos = rng.below(1_000_000_000) as u32,
+            // (long streams only without a bound: with it the two evaluations give up at different wall-clock dates)
+            Step::Observe { window, take } if sc.bound_days.is_none() && rng.chance(1, 60) => {
+                *window = 400 * 86400;
+                *take = 600;
+            }
+            _ => {}
+        }
     }
 }
 
@@ -222,7 +247,7 @@ pub fn scenario_around(rng: &mut Rng, tz: Tz, j: Jump) -> Scenario {
         steps.push(observe(rng, size));
     }
     let observer = if rng.chance(1, 6) { observer_jumping_near(rng, tz, j.at).unwrap_or_else(|| observer_for(rng, tz)) } else { observer_for(rng, tz) };
-    Scenario { zone: tz.name().to_string(), observer: observer.name().to_string(), expr, holidays, jump: Some((j.at, j.before, j.after)), start_utc, steps }
+    Scenario { zone: tz.name().to_string(), observer: observer.name().to_string(), expr, holidays, jump: Some((j.at, j.before, j.after)), start_utc, steps, coords: None, bound_days: None }
 }
 
 fn gen_jump_run(rng: &mut Rng) -> Scenario {
@@ -260,7 +285,7 @@ fn gen_quiet_run(rng: &mut Rng) -> Scenario {
         let lo = secs(NaiveDate::from_ymd_opt(1900, 1, 5).unwrap().and_hms_opt(0, 0, 0).unwrap());
         let hi = secs(NaiveDate::from_ymd_opt(9999, 12, 20).unwrap().and_hms_opt(0, 0, 0).unwrap());
         let t = lo + rng.below((hi - lo) as u64) as i64;
-        return Scenario { zone: tz.name().into(), observer: observer_for(rng, tz).name().into(), expr: gen_expr(rng, None), holidays: vec![], jump: None, start_utc: t, steps: quiet_steps(rng) };
+        return Scenario { zone: tz.name().into(), observer: observer_for(rng, tz).name().into(), expr: gen_expr(rng, None), holidays: vec![], jump: None, start_utc: t, steps: quiet_steps(rng), coords: None, bound_days: None };
     }
     let (lo, hi) = table_range();
     let mut t = lo + 10 * 86400 + rng.below((hi - lo - 20 * 86400) as u64) as i64;
@@ -271,14 +296,14 @@ fn gen_quiet_run(rng: &mut Rng) -> Scenario {
         t = lo + 10 * 86400 + rng.below((hi - lo - 20 * 86400) as u64) as i64;
     }
     // a jump may still be near after 20 attempts; then it is simply one more jump run without placement
-    Scenario { zone: tz.name().into(), observer: observer_for(rng, tz).name().into(), expr: gen_expr(rng, None), holidays: vec![], jump: None, start_utc: t, steps: quiet_steps(rng) }
+    Scenario { zone: tz.name().into(), observer: observer_for(rng, tz).name().into(), expr: gen_expr(rng, None), holidays: vec![], jump: None, start_utc: t, steps: quiet_steps(rng), coords: None, bound_days: None }
 }
 
 fn gen_fixed_run(rng: &mut Rng) -> Scenario {
     const OFFS: [i32; 12] = [0, 3600, -3600, 19800, 20700, -34200, 50400, -43200, 1172, -17762, 45900, 1];
     let t = secs(NaiveDate::from_ymd_opt(1950, 1, 1).unwrap().and_hms_opt(0, 0, 0).unwrap()) + rng.below(100 * 365 * 86400) as i64;
     if rng.chance(1, 4) {
-        Scenario { zone: "utc".into(), observer: "utc".into(), expr: gen_expr(rng, None), holidays: vec![], jump: None, start_utc: t, steps: quiet_steps(rng) }
+        Scenario { zone: "utc".into(), observer: "utc".into(), expr: gen_expr(rng, None), holidays: vec![], jump: None, start_utc: t, steps: quiet_steps(rng), coords: None, bound_days: None }
     } else {
         Scenario {
             zone: format!("fixed:{}", rng.pick(&OFFS)),
@@ -288,6 +313,8 @@ fn gen_fixed_run(rng: &mut Rng) -> Scenario {
             jump: None,
             start_utc: t,
             steps: quiet_steps(rng),
+            coords: None,
+            bound_days: None,
         }
     }
 }
@@ -324,5 +351,5 @@ fn gen_bound_run(rng: &mut Rng) -> Scenario {
         1 => "00:00-24:00".to_string(),
         _ => gen_expr(rng, Some((local0 - 1800, local0 + 1800))),
     };
-    Scenario { zone: tz.name().into(), observer: observer_for(rng, tz).name().into(), expr, holidays: vec![], jump: None, start_utc: start, steps }
+    Scenario { zone: tz.name().into(), observer: observer_for(rng, tz).name().into(), expr, holidays: vec![], jump: None, start_utc: start, steps, coords: None, bound_days: None }
 }
